@@ -54,6 +54,31 @@ def eval_local_types(args):
     return dict(where=where, base=bf, derived=df, version=ver, bad=bad) if bad else False
 
 
+def eval_chain(args):
+    """XSD 1.1 chains of restrictions over a wildcard: T0 = (h, any*), T1 restricts T0 with a local element a of its own type in place of a part of the wildcard, T2 restricts T1
+    and gives the place back to the wildcard; a global element a of ANOTHER type exists.  A child <a> of a T2 element that the wildcard resolves to the global declaration is
+    inconsistent with the local a of the base T1: whatever is valid for T2 is valid for T1, and whatever is valid for T1 is valid for T0"""
+    pc, local_t, global_t, levels = args
+    import xmlschema
+    anyp = f'<xs:any namespace="##any" processContents="{pc}" minOccurs="0" maxOccurs="unbounded"/>'
+    h = '<xs:element name="h" type="xs:string"/>'
+    t1 = f'<xs:sequence>{h}<xs:sequence><xs:element name="a" type="{local_t}" minOccurs="0"/>{anyp}</xs:sequence></xs:sequence>'
+    t2 = f'<xs:sequence>{h}{anyp}</xs:sequence>'
+    types = f'<xs:complexType name="T0"><xs:sequence>{h}{anyp}</xs:sequence></xs:complexType><xs:complexType name="T1"><xs:complexContent><xs:restriction base="T0">{t1}</xs:restriction></xs:complexContent></xs:complexType>'
+    prev = 'T1'
+    for k in range(2, 2 + levels):
+        types += f'<xs:complexType name="T{k}"><xs:complexContent><xs:restriction base="{prev}">{t2}</xs:restriction></xs:complexContent></xs:complexType>'; prev = f'T{k}'
+    names = ['T0', 'T1'] + [f'T{k}' for k in range(2, 2 + levels)]
+    try: s = xmlschema.XMLSchema11(f'<xs:schema {XS}><xs:element name="a" type="{global_t}"/>{types}' + ''.join(f'<xs:element name="e{n[1:]}" type="{n}"/>' for n in names) + '</xs:schema>')
+    except xmlschema.XMLSchemaException: return None
+    bad = []
+    for body in ('<h>x</h>', '<h>x</h><a>7</a>', '<h>x</h><a>text</a>', '<h>x</h><z/>', '<h>x</h><z/><a>text</a>', '<h>x</h><a>7</a><a>text</a>', '<a>text</a>', '<h>x</h><a>2020-01-01</a>'):
+        v = [s.is_valid(f'<e{n[1:]}>{body}</e{n[1:]}>') for n in names]
+        for i in range(1, len(names)):
+            if v[i] and not v[i - 1]: bad.append((body, names[i], names[i - 1]))
+    return bad
+
+
 def eval_attrs(args):
     buse, duse, bfix, dfix, ver = args
     import xmlschema
@@ -193,6 +218,17 @@ def run(tier, seed, open_findings):
     out.append(result('C14.local_simple_types', f'{len(ljobs)} (attribute / child element / simple content, facet of the base local type, facet of the redeclared local type, class): two unrelated local simple types over xs:integer',
                       len(ljobs), [dict(case=dict(local_types=True, where=r['where'], base=r['base'], derived=r['derived'], version=r['version']), observed=f"the restriction accepts {r['bad']} that the base rejects",
                                         required='values(derived) subset of values(base)') for r in lres if r], exhaustive=True, distinct=sum(1 for r in lres if r is not None)))
+    # (processContents=skip: nothing is validated below the wildcard, the listed finding C14-xsd11-sequence-wildcard-readmits-dropped-typed-element has its own family)
+    chjobs = [(pc, lt, gt, lv) for pc in ('lax', 'strict') for lt, gt in (('xs:int', 'xs:string'), ('xs:int', 'xs:int'), ('xs:date', 'xs:string'), ('xs:string', 'xs:int')) for lv in (1, 2)]
+    chres = [eval_chain(j) for j in chjobs]
+    KCH = 'C14-xsd11-local-element-wider-than-the-global-behind-the-base-wildcard'; chf = []; chk = 0
+    for r, j in zip(chres, chjobs):
+        if not r: continue
+        # listed finding: the first step T1 <- T0 puts a local a of a WIDER type (xs:string) where the wildcard of T0 resolves a to the global a (xs:int)
+        if j[1:3] == ('xs:string', 'xs:int') and all(b[1:] == ('T1', 'T0') for b in r) and KCH in open_findings: chk += 1; continue
+        chf.append(dict(case=dict(chain=list(j)), observed=[list(b) for b in r[:3]], required='instances(derived) subset of instances(base), at every step of the chain'))
+    out.append(result('C14.restriction_chains_over_a_wildcard', f'{len(chjobs)} XSD 1.1 chains T0 <- T1 <- T2 (<- T3) over a wildcard (lax / strict / skip), a local element a in the middle type and a global a of the same or another type x 8 contents: valid for a type => valid for its base',
+                      len(chjobs) * 8, chf, exhaustive=True, known=({KCH: chk} if chk else {}), distinct=sum(1 for r in chres if r is not None)))
     uses = (None, 'optional', 'required', 'prohibited'); fixes = (None, '1', '2')
     # use=prohibited together with fixed is outside the scope: XSD 1.0 leaves its meaning open, xmlschema accepts the attribute then (reported corner)
     ajobs = [(bu, du, bf, df, ver) for bu in uses for du in uses for bf in fixes for df in fixes for ver in ('1.0', '1.1')
@@ -236,6 +272,8 @@ def run(tier, seed, open_findings):
 
 
 def replay(check_name, case):
+    if case.get('chain'):
+        r = eval_chain(tuple(case['chain'])); return dict(ok=not r, observed=r, required='derived admits a subset')
     if case.get('local_types'):
         r = eval_local_types((case['where'], [tuple(x) for x in case['base']], [tuple(x) for x in case['derived']], case['version'])); return dict(ok=not r, observed=r, required='derived admits a subset')
     if case.get('child_types'):
